@@ -8,6 +8,22 @@ Lemma norm2_neg_image B p q k1 k2 k3 :
 Proof. unfold norm2, vsub, lat, vadd, vscale, avec, bvec, cvec, vx, vy, vz; cbn [fst snd]. ring. Qed.
 
 (* the full list (after symmetric completion), both orders *)
+Theorem nlist_gen_complete_ortho_incell fl B c xyz i j k1 k2 k3 :
+  box_ok B -> ortho B -> 0 < c ->
+  2 * c <= b_ax B /\ 2 * c <= b_by B /\ 2 * c <= b_cz B ->
+  (forall k, (k < length xyz)%nat -> in_cell B (pos xyz k)) ->
+  (i < length xyz)%nat -> (j < length xyz)%nat -> i <> j ->
+  norm2 (vsub (vsub (pos xyz j) (pos xyz i)) (lat B k1 k2 k3)) < c * c ->
+  In j (nth i (complete (nlist_half_gen fl (Some B) c xyz)) []).
+Proof.
+  intros HB HO Hc Hh Hin Hi Hj Hne Hn.
+  apply (in_complete _ i j (nlist_half_ok fl (Some B) c xyz)); [now rewrite nlist_half_length|].
+  destruct (Nat.lt_ge_cases j i) as [Hlt|Hge].
+  - left. now apply (ortho_incell_half fl B c xyz HB HO Hc Hh Hin i j k1 k2 k3).
+  - right. apply (ortho_incell_half fl B c xyz HB HO Hc Hh Hin j i (- k1) (- k2) (- k3)); [lia|exact Hj|].
+    now rewrite norm2_neg_image.
+Qed.
+
 Theorem nlist_cur_complete_ortho_incell B c xyz i j k1 k2 k3 :
   box_ok B -> ortho B -> 0 < c ->
   2 * c <= b_ax B /\ 2 * c <= b_by B /\ 2 * c <= b_cz B ->
@@ -17,10 +33,10 @@ Theorem nlist_cur_complete_ortho_incell B c xyz i j k1 k2 k3 :
   In j (nth i (nlist_cur (Some B) c xyz) []).
 Proof.
   intros HB HO Hc Hh Hin Hi Hj Hne Hn. unfold nlist_cur.
-  apply (in_complete _ i j (nlist_half_ok (Some B) c xyz)); [now rewrite nlist_half_length|].
+  apply (in_complete _ i j (nlist_half_ok false (Some B) c xyz)); [now rewrite nlist_half_length|].
   destruct (Nat.lt_ge_cases j i) as [Hlt|Hge].
-  - left. now apply (ortho_incell_half B c xyz HB HO Hc Hh Hin i j k1 k2 k3).
-  - right. apply (ortho_incell_half B c xyz HB HO Hc Hh Hin j i (- k1) (- k2) (- k3)); [lia|exact Hj|].
+  - left. now apply (ortho_incell_half false B c xyz HB HO Hc Hh Hin i j k1 k2 k3).
+  - right. apply (ortho_incell_half false B c xyz HB HO Hc Hh Hin j i (- k1) (- k2) (- k3)); [lia|exact Hj|].
     now rewrite norm2_neg_image.
 Qed.
 
@@ -129,7 +145,7 @@ Lemma nlist_cur_relation cell c xyz i j :
   let N := nlist_cur cell c xyz in
   (In j (nth i N []) -> In i (nth j N [])) /\ ~ In i (nth i N []) /\ NoDup (nth i N []) /\
   (In j (nth i N []) -> (i < length xyz)%nat /\ (j < length xyz)%nat).
-Proof. exact (nlist_relation_ok _ _ i j (nlist_half_ok cell c xyz) (nlist_half_length cell c xyz)). Qed.
+Proof. exact (nlist_relation_ok _ _ i j (nlist_half_ok false cell c xyz) (nlist_half_length false cell c xyz)). Qed.
 
 Lemma nlist_fix_relation cell c xyz i j :
   let N := nlist_fix cell c xyz in
@@ -203,3 +219,62 @@ Proof.
   split; [vm_compute; reflexivity|].
   split; vm_compute; intros H; exact H.
 Qed.
+
+(* ---------------------------------------------------------------- second repair (flag = true) *)
+Lemma nlist_half_fix_gen_ok fl cell c xyz : half_ok (nlist_half_fix_gen fl cell c xyz).
+Proof. unfold nlist_half_fix_gen. destruct cell; apply nlist_half_ok. Qed.
+
+Lemma nlist_half_fix_gen_length fl cell c xyz : length (nlist_half_fix_gen fl cell c xyz) = length xyz.
+Proof. unfold nlist_half_fix_gen. destruct cell; rewrite nlist_half_length; [apply map_length|reflexivity]. Qed.
+
+Lemma nlist_fix2_relation cell c xyz i j :
+  let N := nlist_fix2 cell c xyz in
+  (In j (nth i N []) -> In i (nth j N [])) /\ ~ In i (nth i N []) /\ NoDup (nth i N []) /\
+  (In j (nth i N []) -> (i < length xyz)%nat /\ (j < length xyz)%nat).
+Proof. exact (nlist_relation_ok _ _ i j (nlist_half_fix_gen_ok true cell c xyz) (nlist_half_fix_gen_length true cell c xyz)). Qed.
+
+Theorem nlist_half_fix_gen_sound fl cell c xyz i j :
+  In j (nth i (nlist_half_fix_gen fl cell c xyz) []) ->
+  (j < i)%nat /\ (i < length xyz)%nat /\ image_within cell c (pos xyz i) (pos xyz j).
+Proof.
+  unfold nlist_half_fix_gen. destruct cell as [B|]; [|apply nlist_half_sound].
+  intros H. apply nlist_half_sound in H. destruct H as (Hji & Hi & Him). rewrite map_length in Hi.
+  split; [exact Hji|]. split; [exact Hi|].
+  unfold image_within in *. destruct Him as (k1 & k2 & k3 & Hn).
+  rewrite !pos_map in Hn by lia.
+  destruct (wrap_into_cell_lat (reduce_box B) (pos xyz i)) as (a1 & a2 & a3 & Ei).
+  destruct (wrap_into_cell_lat (reduce_box B) (pos xyz j)) as (b1 & b2 & b3 & Ej).
+  rewrite Ei, Ej in Hn.
+  destruct (reduce_lat B a1 a2 a3) as (a1' & a2' & a3' & Ea). destruct (reduce_lat B b1 b2 b3) as (b1' & b2' & b3' & Eb).
+  rewrite Ea, Eb in Hn.
+  exists (k1 + b1' - a1'), (k2 + b2' - a2'), (k3 + b3' - a3').
+  replace (norm2 _) with (norm2 (vsub (vsub (vsub (pos xyz j) (lat B b1' b2' b3')) (vsub (pos xyz i) (lat B a1' a2' a3'))) (lat B k1 k2 k3))); [exact Hn|].
+  unfold norm2, vsub, lat, vadd, vscale, avec, bvec, cvec, vx, vy, vz; cbn [fst snd]. ring.
+Qed.
+
+Theorem nlist_fix2_complete_ortho B c xyz i j k1 k2 k3 :
+  box_ok B -> ortho B -> 0 < c ->
+  2 * c <= b_ax B /\ 2 * c <= b_by B /\ 2 * c <= b_cz B ->
+  (i < length xyz)%nat -> (j < length xyz)%nat -> i <> j ->
+  norm2 (vsub (vsub (pos xyz j) (pos xyz i)) (lat B k1 k2 k3)) < c * c ->
+  In j (nth i (nlist_fix2 (Some B) c xyz) []).
+Proof.
+  intros HB HO Hc Hh Hi Hj Hne Hn. unfold nlist_fix2, nlist_half_fix_gen. rewrite (reduce_box_ortho B HB HO).
+  set (xyz' := map (wrap_into_cell B) xyz).
+  assert (Hlen : length xyz' = length xyz) by (unfold xyz'; apply map_length).
+  destruct (wrap_into_cell_lat B (pos xyz i)) as (a1 & a2 & a3 & Ei).
+  destruct (wrap_into_cell_lat B (pos xyz j)) as (b1 & b2 & b3 & Ej).
+  apply (nlist_gen_complete_ortho_incell true B c xyz' i j (k1 - b1 + a1) (k2 - b2 + a2) (k3 - b3 + a3) HB HO Hc Hh).
+  - intros k Hk. rewrite Hlen in Hk. unfold xyz'. rewrite pos_map by exact Hk. now apply wrap_into_cell_in.
+  - now rewrite Hlen.
+  - now rewrite Hlen.
+  - exact Hne.
+  - unfold xyz'. rewrite !pos_map by assumption. rewrite Ei, Ej.
+    replace (norm2 _) with (norm2 (vsub (vsub (pos xyz j) (pos xyz i)) (lat B k1 k2 k3))); [exact Hn|].
+    unfold norm2, vsub, lat, vadd, vscale, avec, bvec, cvec, vx, vy, vz; cbn [fst snd]. ring.
+Qed.
+
+(* the triclinic three-voxel witness is listed by the second repair *)
+Lemma nlist_fix2_on_triclinic_witness :
+  In 0%nat (nth 1 (nlist_fix2 (Some tric_box) 676 tric_xyz) []) /\ In 1%nat (nth 0 (nlist_fix2 (Some tric_box) 676 tric_xyz) []).
+Proof. split; vm_compute; left; reflexivity. Qed.
